@@ -105,6 +105,13 @@ Proof.
   destruct (bytes_eqb k k'); auto. simpl. constructor; auto.
 Qed.
 
+Lemma blookup_bremove_sub {A} k n (v : A) l : NoDup (map fst l) -> blookup n (bremove k l) = Some v -> blookup n l = Some v.
+Proof.
+  intros Hn H. destruct (bytes_eqb n k) eqn:E.
+  - apply bytes_eqb_eq in E. subst. rewrite blookup_bremove_same in H; auto. discriminate.
+  - rewrite blookup_bremove_other in H; auto. apply bytes_eqb_neq; auto.
+Qed.
+
 Section Inv.
   Variables (f0 : fs) (dr : N).
   Let b := f_next f0.
@@ -120,7 +127,11 @@ Section Inv.
       (b <= child /\ (b <= j -> j < child)) \/
       (j < b /\ child < b /\ blookup name (dents f0 j) = Some child);
     inv_nodup : forall j, SS j -> NoDup (map fst (dents f j));
-    inv_names : forall j, Forall okn (map fst (dents f j))
+    inv_names : forall j, Forall okn (map fst (dents f j));
+    (* every entry leads to an allocated number; a directory has one parent entry *)
+    inv_target : forall j name child, blookup name (dents f j) = Some child -> child < f_next f;
+    inv_single : forall j1 j2 n1 n2 i, blookup n1 (dents f j1) = Some i -> blookup n2 (dents f j2) = Some i ->
+                 is_dir f i = true -> j1 = j2 /\ n1 = n2
   }.
 
   Lemma exists_lt_next f i : alloc_ok f -> get f i <> None -> i < f_next f.
@@ -133,9 +144,12 @@ Section Inv.
   Proof. intros H. destruct (is_dir f j) eqn:E; auto. rewrite (dents_nil_not_dir _ _ E) in H. discriminate. Qed.
 
   Lemma inv_init : alloc_ok f0 -> (forall j, SS j -> NoDup (map fst (dents f0 j))) ->
-    (forall j, Forall okn (map fst (dents f0 j))) -> Inv f0.
+    (forall j, Forall okn (map fst (dents f0 j))) ->
+    (forall j name child, blookup name (dents f0 j) = Some child -> child < f_next f0) ->
+    (forall j1 j2 n1 n2 i, blookup n1 (dents f0 j1) = Some i -> blookup n2 (dents f0 j2) = Some i ->
+       is_dir f0 i = true -> j1 = j2 /\ n1 = n2) -> Inv f0.
   Proof.
-    intros Ha Hn Hnames. constructor; auto; try (unfold b; lia).
+    intros Ha Hn Hnames Htg Hsg. constructor; auto; try (unfold b; lia).
     intros j name child Hb Hd. right.
     pose proof (exists_lt_next f0 child Ha (is_dir_exists _ _ Hd)).
     pose proof (exists_lt_next f0 j Ha (is_dir_exists _ _ (dents_some_dir _ _ _ _ Hb))).
@@ -241,6 +255,28 @@ Section Inv.
       destruct (N.eqb_spec j (l_dir r)) as [->|Hjd].
       + rewrite map_app. apply Forall_app. split; [apply (inv_names f I)|]. simpl. constructor; auto.
       + destruct (N.eqb_spec j nw); [constructor|apply (inv_names f I)].
+    - intros j name child Hb. unfold f'. rewrite create_at_next. rewrite (Hdents j Hleaf) in Hb.
+      destruct (N.eqb_spec j (l_dir r)) as [->|Hjd].
+      + rewrite blookup_app in Hb. destruct (blookup name (dents f (l_dir r))) eqn:E.
+        * inversion Hb; subst. pose proof (inv_target f I _ _ _ E). lia.
+        * simpl in Hb. destruct (bytes_eqb name (l_name r)); inversion Hb; subst. fold nw. lia.
+      + destruct (N.eqb_spec j nw); [discriminate|]. pose proof (inv_target f I _ _ _ Hb). lia.
+    - intros j1 j2 n1 n2 i H1 H2 Hi.
+      assert (Hcase : forall j n, blookup n (dents f' j) = Some i ->
+                      blookup n (dents f j) = Some i \/ (j = l_dir r /\ n = l_name r /\ i = nw)).
+      { intros j n H. rewrite (Hdents j Hleaf) in H. destruct (N.eqb_spec j (l_dir r)) as [->|Hjd].
+        - rewrite blookup_app in H. destruct (blookup n (dents f (l_dir r))); [left; auto|].
+          simpl in H. destruct (bytes_eqb n (l_name r)) eqn:En; [|discriminate].
+          apply bytes_eqb_eq in En. inversion H; subst. right; auto.
+        - destruct (N.eqb_spec j nw); [discriminate|left; auto]. }
+      assert (Hnot : forall j n, blookup n (dents f j) = Some nw -> False).
+      { intros j n K. pose proof (inv_target f I _ _ _ K). unfold nw in *. lia. }
+      destruct (Hcase _ _ H1) as [K1|(E1 & E2 & E3)]; destruct (Hcase _ _ H2) as [K2|(G1 & G2 & G3)].
+      + rewrite Hisdir in Hi. destruct (N.eqb_spec i nw) as [->|Hin]; [exfalso; eapply Hnot; eauto|].
+        apply (inv_single f I j1 j2 n1 n2 i); auto.
+      + subst i. exfalso; eapply Hnot; eauto.
+      + subst i. exfalso; eapply Hnot; eauto.
+      + subst. auto.
   Qed.
 
   Lemma inv_del_ent f d name : Inv f -> SS d -> Inv (del_ent f d name).
@@ -267,13 +303,21 @@ Section Inv.
       apply bremove_nodup. apply (inv_nodup f I); auto.
     - intros j. rewrite Hdents. destruct (N.eqb_spec j d) as [->|]; [|apply (inv_names f I)].
       apply bremove_names. apply (inv_names f I).
+    - intros j n child Hb. unfold f'. rewrite del_ent_next. apply (inv_target f I j n child).
+      rewrite Hdents in Hb. destruct (N.eqb_spec j d) as [->|]; auto. eapply blookup_bremove_sub; eauto.
+      apply (inv_nodup f I); auto.
+    - intros j1 j2 n1 n2 i H1 H2 Hi. unfold f' in Hi. rewrite is_dir_del_ent in Hi.
+      rewrite Hdents in H1, H2. apply (inv_single f I j1 j2 n1 n2 i); auto.
+      + destruct (N.eqb_spec j1 d) as [->|]; auto. eapply blookup_bremove_sub; eauto. apply (inv_nodup f I); auto.
+      + destruct (N.eqb_spec j2 d) as [->|]; auto. eapply blookup_bremove_sub; eauto. apply (inv_nodup f I); auto.
   Qed.
 
   Lemma inv_add_ent f d name i :
     Inv f -> SS d -> is_dir f d = true -> is_dir f i = false -> blookup name (dents f d) = None -> okn name ->
+    i < f_next f ->
     Inv (add_ent f d name i).
   Proof.
-    intros I Hs Hd Hi Hnone Hokn. set (f' := add_ent f d name i).
+    intros I Hs Hd Hi Hnone Hokn Hilt. set (f' := add_ent f d name i).
     assert (Hdents := fun j => add_ent_dents f d name i j Hd). fold f' in Hdents.
     constructor.
     - intros j Hj Hout. unfold f'. rewrite add_ent_other; [apply (inv_frame f I); auto|].
@@ -293,6 +337,19 @@ Section Inv.
       apply blookup_None_notin. exact Hnone.
     - intros j. rewrite Hdents. destruct (N.eqb_spec j d) as [->|]; [|apply (inv_names f I)].
       rewrite map_app. apply Forall_app. split; [apply (inv_names f I)|]. simpl. constructor; auto.
+    - intros j n child Hb. unfold f'. rewrite add_ent_next. rewrite Hdents in Hb.
+      destruct (N.eqb_spec j d) as [->|]; [|apply (inv_target f I j n child); auto].
+      rewrite blookup_app in Hb. destruct (blookup n (dents f d)) eqn:E.
+      + inversion Hb; subst. apply (inv_target f I d n child); auto.
+      + simpl in Hb. destruct (bytes_eqb n name); inversion Hb; subst. exact Hilt.
+    - intros j1 j2 n1 n2 k H1 H2 Hk. unfold f' in Hk. rewrite is_dir_add_ent in Hk.
+      rewrite Hdents in H1, H2.
+      assert (Hcase : forall j n, blookup n (if N.eqb j d then dents f d ++ [(name, i)] else dents f j) = Some k ->
+                      blookup n (dents f j) = Some k).
+      { intros j n H. destruct (N.eqb_spec j d) as [->|]; auto.
+        rewrite blookup_app in H. destruct (blookup n (dents f d)); auto.
+        simpl in H. destruct (bytes_eqb n name); [|discriminate]. inversion H; subst. congruence. }
+      apply (inv_single f I j1 j2 n1 n2 k); auto.
   Qed.
 
   (* any update of an SS inode that keeps its kind constructor and, for a directory, its parent
@@ -336,5 +393,23 @@ Section Inv.
     - intros j nm0 child Hb Hc. rewrite Hdents in Hb. rewrite Hisdir in Hc. apply (inv_dent f I j nm0 child); auto.
     - intros j Hj. rewrite Hdents. apply (inv_nodup f I); auto.
     - intros j. rewrite Hdents. apply (inv_names f I).
+    - intros j nm0 child Hb. unfold f'. rewrite next_put. rewrite Hdents in Hb. apply (inv_target f I j nm0 child); auto.
+    - intros j1 j2 n1 n2 k H1 H2 Hk. rewrite Hdents in H1, H2. rewrite Hisdir in Hk.
+      apply (inv_single f I j1 j2 n1 n2 k); auto.
+  Qed.
+
+  (* a directory below dr has one path only *)
+  Lemma chain_unique f : Inv f -> acyclic f -> forall a cs1 e, chain f a cs1 e -> forall cs2, chain f a cs2 e -> cs1 = cs2.
+  Proof.
+    intros I Hac a cs1. induction cs1 as [|x cs1 IH] using rev_ind; intros e H1 cs2 H2.
+    - inversion H1; subst. destruct cs2 as [|y cs2]; auto. exfalso. apply (Hac e (y :: cs2)); [discriminate|auto].
+    - destruct cs2 as [|y cs2 _] using rev_ind.
+      + inversion H2; subst. exfalso. apply (Hac e (cs1 ++ [x])); [destruct cs1; discriminate|auto].
+      + destruct (chain_split f cs1 a [x] e H1) as (m1 & P1 & Q1).
+        destruct (chain_split f cs2 a [y] e H2) as (m2 & P2 & Q2).
+        inversion Q1 as [|? ? i1 ? ? B1 D1 R1]; subst. inversion R1; subst.
+        inversion Q2 as [|? ? i2 ? ? B2 D2 R2]; subst. inversion R2; subst.
+        destruct (inv_single f I m1 m2 x y e B1 B2 D1) as [-> ->].
+        rewrite (IH m2 P1 cs2 P2). reflexivity.
   Qed.
 End Inv.
